@@ -751,6 +751,28 @@ impl KotoVm {
         Ok(Null)
     }
 
+    /// Returns a read-only snapshot of the VM's execution state
+    #[cfg(feature = "koto_verif")]
+    pub fn verif_state(&self) -> crate::verif::VmState {
+        let module_cache = self.context.module_cache.borrow();
+        crate::verif::VmState {
+            registers_len: self.registers.len(),
+            register_base: self.register_base,
+            min_frame_registers: self.min_frame_registers,
+            call_stack_len: self.call_stack.len(),
+            sequence_builders_len: self.sequence_builders.len(),
+            string_builders_len: self.string_builders.len(),
+            execution_state: match self.execution_state {
+                ExecutionState::Inactive => 0,
+                ExecutionState::Active => 1,
+                ExecutionState::Suspended => 2,
+            },
+            catch_stack_total: self.call_stack.iter().map(|f| f.catch_stack.len()).sum(),
+            module_cache_placeholders: module_cache.values().filter(|m| m.is_none()).count(),
+            module_cache_len: module_cache.len(),
+        }
+    }
+
     fn execute_instructions(&mut self) -> Result<KValue> {
         let mut timeout = self
             .context
@@ -776,6 +798,19 @@ impl KotoVm {
                     )
                     .map(|_| KValue::Null);
             }
+
+            #[cfg(feature = "koto_verif")]
+            crate::verif::emit(&crate::verif::Event::Instruction {
+                chunk: &*self.reader.chunk as *const Chunk,
+                ip: self.instruction_ip,
+                instruction: &instruction,
+                registers_len: self.registers.len(),
+                register_base: self.register_base,
+                required_registers: self.call_stack.last().map_or(0, |f| f.required_registers),
+                sequence_builders_len: self.sequence_builders.len(),
+                string_builders_len: self.string_builders.len(),
+                call_stack_len: self.call_stack.len(),
+            });
 
             match self.execute_instruction(instruction) {
                 Ok(ControlFlow::Continue) => {}
@@ -4060,6 +4095,11 @@ struct ExecutionTimeout {
 
 impl ExecutionTimeout {
     fn new(execution_limit: Duration) -> Self {
+        #[cfg(feature = "koto_verif")]
+        crate::verif::emit(&crate::verif::Event::TimeoutArmed {
+            limit: execution_limit,
+        });
+
         let now = Instant::now();
         let interval_seconds = (execution_limit / 10).as_secs_f64();
 
@@ -4090,6 +4130,14 @@ impl ExecutionTimeout {
             false
         } else {
             let now = Instant::now();
+            #[cfg(feature = "koto_verif")]
+            crate::verif::emit(&if now >= self.deadline {
+                crate::verif::Event::TimeoutFired {
+                    overshoot: now - self.deadline,
+                }
+            } else {
+                crate::verif::Event::TimeoutPolled
+            });
             if now >= self.deadline {
                 true
             } else {
